@@ -5,20 +5,24 @@ import vlib, scen, formats, gen_core
 HOSTILE32 = [0, 1, 2, 0x7F, 0x80, 0xFF, 0x100, 0x7FFF, 0x8000, 0xFFFF, 0x10000, 0x7FFFFFFF, 0x80000000, 0xFFFFFFFF, 0xFFFFFFFE, 0x7FFFFFFE, 0x01000000, 0x00FFFFFF]
 
 
-def seed_files(exe, fmts, rate, outdir):
-    """phase 1: valid files of every format with metadata and chunks where the container takes them; returns [(fmt, ch, bytes, dataoffset)]"""
+def seed_files(exe, fmts, rate, outdir, nframes=None, meta=True, tag="seed"):
+    """phase 1: valid files of every format with metadata and chunks where the container takes them; returns [(fmt, ch, bytes, dataoffset)]
+    nframes: function (fmt, ch) -> frames of noise to write (default 100); meta False: audio only"""
     S = scen.Script()
     paths = []
     for fmt, ch in fmts:
         T = gen_core.type_for(fmt)
         S.scn(fmt="0x%x" % fmt, ch=ch, kind="seed")
-        p = os.path.join(outdir, "seed_%x_%d.bin" % (fmt, ch))
+        p = os.path.join(outdir, "%s_%x_%d.bin" % (tag, fmt, ch))
         rt = scen.route_for(fmt)
-        S.add("file 1 new", "open 0 %s w 1 %d %d %d" % (rt, fmt, ch, rate), "setstr 0 1 5469746c65", "setstr 0 4 417274697374", "setstr 0 5 436f6d6d656e74",
-              "setchunk 0 41424344 9 3", "setmeta 0 cues 3 5 3", "setmeta 0 bext 4 9 30", "setmeta 0 cart 5 6 12", "setmeta 0 chmap 1 1", "write 0 %s f 100 gen noise 11 0" % T, "close 0",
+        S.add("file 1 new", "open 0 %s w 1 %d %d %d" % (rt, fmt, ch, rate))
+        if meta:
+            S.add("setstr 0 1 5469746c65", "setstr 0 4 417274697374", "setstr 0 5 436f6d6d656e74",
+                  "setchunk 0 41424344 9 3", "setmeta 0 cues 3 5 3", "setmeta 0 bext 4 9 30", "setmeta 0 cart 5 6 12", "setmeta 0 chmap 1 1")
+        S.add("write 0 %s f %d gen noise 11 0" % (T, nframes(fmt, ch) if nframes else 100), "close 0",
               "open 1 %s r 1 %d %d %d" % (rt, fmt if scen.major(fmt) == scen.RAW else 0, ch, rate), "close 1", "file 1 save %s" % p)
         paths.append((fmt, ch, p))
-    sp, ep = os.path.join(outdir, "seed.script"), os.path.join(outdir, "seed.ndjson")
+    sp, ep = os.path.join(outdir, tag + ".script"), os.path.join(outdir, tag + ".ndjson")
     open(sp, "w").write("\n".join(S.lines) + "\n")
     vlib.run_driver(exe, sp, ep)
     offs, cur = {}, None
@@ -128,7 +132,8 @@ def hostile_mutants(data, dataoff, limit=320):
 
 CALLS = ["read 0 s f 7", "read 0 i i 12", "read 0 f f 3", "read 0 d i 24", "read 0 s i 5000", "read 0 f f 100000", "seek 0 0 0", "seek 0 3 0", "seek 0 -1 2", "seek 0 2 1", "seek 0 0 2", "seek 0 5 16",
          "seek 0 1000000 0", "seek 0 0 17", "getstr 0 1", "getstr 0 4", "info 0", "calc 0 CALC_SIGNAL_MAX", "calc 0 CALC_NORM_MAX_ALL_CHANNELS", "calc 0 GET_SIGNAL_MAX", "calc 0 GET_MAX_ALL_CHANNELS",
-         "chit 0 0 null", "chget 0 0 -1", "chnext 0 0", "chget 0 0 2", "chit 0 0 41424344", "chget 0 0 -1", "errq 0", "cmd 0 GET_NORM_FLOAT 0", "read 0 r i 64"]
+         "chit 0 0 null", "chget 0 0 -1", "chnext 0 0", "chget 0 0 2", "chit 0 0 41424344", "chget 0 0 -1", "errq 0", "cmd 0 GET_NORM_FLOAT 0", "read 0 r i 64",
+         "getmeta 0 cues 0 0", "getmeta 0 inst 0 0", "getmeta 0 bext 0 0", "getmeta 0 cart 0 0", "getmeta 0 chmap 0 0", "getstr 0 2", "getstr 0 5"]
 
 
 def scenarios(S, seeds, rng, per_seed, routes=("vio",), ncalls=12, systematic=False):
